@@ -20,7 +20,7 @@ pub fn gaps() -> Vec<u64> {
 pub const LONG_LENS_QUICK: [usize; 11] = [19, 20, 21, 38, 39, 40, 100, 257, 589, 591, 1025];
 pub const LONG_LENS_THOROUGH: [usize; 20] = [19, 20, 21, 38, 39, 40, 100, 255, 256, 257, 300, 589, 590, 591, 1000, 1023, 1024, 1025, 3000, 4097];
 
-/// digit-string patterns of a given length: 9…9, 10…0, 10…01, 49…9, 50…0, 50…01, filler
+/// digit-string patterns of a given length: 9…9, 10…0, 10…01, 49…9, 50…0, 50…01, 19…9, 9…98, filler
 pub fn patterns(len: usize, seed: u64) -> Vec<(&'static str, String)> {
     assert!(len >= 1);
     let rep = |first: char, mid: char, last: char| -> String {
@@ -36,6 +36,8 @@ pub fn patterns(len: usize, seed: u64) -> Vec<(&'static str, String)> {
         v.push(("49s", rep('4', '9', '9')));
         v.push(("50s", rep('5', '0', '0')));
         v.push(("50s1", rep('5', '0', '1')));
+        v.push(("1nines", rep('1', '9', '9')));
+        v.push(("nines8", rep('9', '9', '8')));
     }
     v.push(("filler", filler_digits(seed, len as u64, len)));
     v
@@ -140,6 +142,38 @@ pub fn limit_spellings() -> Vec<String> {
     for b in bases {
         for d in -2i64..=9 {
             out.push((&b + d).to_string());
+        }
+    }
+    out
+}
+
+/// +-(2^e + d) for e in {31, 32, 53, 63, 64, 96, 127, 128, 192, 256}, d in -9..=9: coefficients on both sides of
+/// every machine-word limit (native fast paths overflow or change path exactly here)
+pub fn word_limit_ints() -> Vec<BigInt> {
+    let mut out = vec![];
+    for e in [31usize, 32, 53, 63, 64, 96, 127, 128, 192, 256] {
+        for d in -9i64..=9 {
+            let v = (BigInt::from(1) << e) + d;
+            out.push(v.clone());
+            out.push(-v);
+        }
+    }
+    out
+}
+
+/// digit strings prefix | r nines | last, for every prefix length 0..=pmax and every run length 0..=rmax:
+/// carry chains of every length behind every prefix length
+pub fn carry_chains(pmax: usize, rmax: usize) -> Vec<String> {
+    let mut out = vec![];
+    for pl in 0..=pmax {
+        let prefix: String = (0..pl).map(|i| char::from(b'1' + ((i * 7 + 2) % 8) as u8)).collect();
+        for r in 0..=rmax {
+            for last in ["5", "6", "49", "50", "51", "4"] {
+                let s = format!("{}{}{}", prefix, "9".repeat(r), last);
+                if !s.starts_with('0') {
+                    out.push(s);
+                }
+            }
         }
     }
     out
